@@ -76,7 +76,11 @@ def step (st : St) (args : List String) : St × String :=
     | some d => ({ st with state := shiftTimes d st.state, cumShift := st.cumShift + d }, "ok")
     | none => (st, "bad-op")
   | ["eval", c, g, status, bits] =>
-    match (parseNat? status).bind Status.ofNat? with
+    match Notifier.resultOf status with
+    | .skipped => (st, "notes=-")     -- responseLoop: a nil answer or NOTFOUND never reaches the incident logic
+    | .bad => (st, "bad-op")
+    | .evaluated statusV =>
+    match some statusV with
     | none => (st, "bad-op")
     | some status =>
       let accOf (m : String) : Bool :=
